@@ -17,6 +17,8 @@ from mc import core, pipeline, sched
 PROP = "C15"
 
 INPUTS_FULL = {
+    "sim": [{"l": {"u": 1, "v": 2, "w": 3}, "r": {"u": 1, "v": 2, "w": 3, "z": 4}}],
+    "dis": [{"l": {"u": 1, "v": 2, "w": 3}, "r": {"x": 1, "y": 2, "z": 3}}],
     "shared": [{"id": 1, "billing": {"street": "s", "geo": {"lat": 1.5, "lon": 2.5}}, "shipping": {"carrier": "c", "eta": 3, "geo": {"lat": 3.5, "lon": 4.5}},
                 "kind": "x", "state": "on"}, {"id": 2, "billing": None, "shipping": {"carrier": "d", "eta": 4, "geo": {"lat": 1.0, "lon": 2.0}},
                                               "kind": "y", "state": "off"}],
@@ -26,9 +28,13 @@ INPUTS_FULL = {
 # the quick tier uses the smallest inputs that still have the relevant features (a model shared by two parents under
 # one root -> non-empty path injection map; a non-ASCII key; a Literal field) so that ALL two-preemption schedules fit
 INPUTS_SMALL = {
-    "shared": [{"a": {"g": {"x": 1}, "p": 1}, "b": {"g": {"x": 2}, "q": "s"}, "k": "x"}],
+    # every body has at least one renamed field and one optional container, so that all of them go through the alias / kwargs code
+    "shared": [{"a": {"g": {"x": 1}, "p": 1}, "b": {"g": {"x": 2}, "q": "s"}, "k": "x", "userName": "u"}],
     "nonascii": [{"имя": "a", "б": {"é": 1}}],
-    "literal": [{"kind": "a"}, {"kind": "b"}],
+    "literal": [{"kind": "a", "tagList": [1]}, {"kind": "b"}],
+    # same shape, same model indexes, opposite similarity: shared per-index state flips a merge decision
+    "sim": [{"l": {"u": 1, "v": 2, "w": 3}, "r": {"u": 1, "v": 2, "w": 3, "z": 4}}],
+    "dis": [{"l": {"u": 1, "v": 2, "w": 3}, "r": {"x": 1, "y": 2, "z": 3}}],
 }
 INPUTS = INPUTS_SMALL
 # thread bodies: (input, framework, layout, generator kwargs)
@@ -37,6 +43,8 @@ BODIES = {
     "T2": ("nonascii", "attrs", "flat", {"convert_unicode": False, "meta": True}),
     "T3": ("literal", "pydantic", "flat", {"max_literals": 0}),
     "T4": ("literal", "dataclasses", "nested", {"post_init_converters": True}),
+    "T5": ("sim", "dataclasses", "flat", {"meta": True}),
+    "T6": ("dis", "attrs", "flat", {"meta": True}),
 }
 _SOLO = {}
 _WARM = {}
@@ -182,6 +190,11 @@ def run(tier, seed):
             plans.append({"threads": pair, "gran": "line", "bound": 1, "whole": False})
             # whole pipeline (metadata generation + registry + merge + layout + rendering) inside the scheduled region
             plans.append({"threads": pair, "gran": "call", "bound": 1, "whole": True})
+        plans.append({"threads": ["T5", "T6"], "gran": "call", "bound": 1, "whole": True})
+        plans.append({"threads": ["T5", "T6"], "gran": "line", "bound": 1, "whole": True})
+        plans.append({"threads": ["T4", "T2"], "gran": "line", "bound": 1, "whole": False})
+        # cheap plans first: a wall-budget cap then cuts the largest bound-2 plan, never the bound-1 coverage
+        plans.sort(key=lambda pl: (pl["bound"], pl["gran"] == "call" and pl["bound"] == 2))
     else:
         for pair in itertools.combinations(["T1", "T2", "T3", "T4"], 2):
             plans.append({"threads": list(pair), "gran": "call", "bound": 2, "whole": False})
@@ -191,6 +204,8 @@ def run(tier, seed):
             plans.append({"threads": pair, "gran": "call", "bound": 2, "whole": True})
         plans.append({"threads": ["T1", "T3"], "gran": "opcode", "bound": 1, "whole": False})
         plans.append({"threads": ["T1", "T2"], "gran": "opcode", "bound": 1, "whole": False})
+        plans.append({"threads": ["T5", "T6"], "gran": "call", "bound": 2, "whole": True})
+        plans.append({"threads": ["T5", "T6"], "gran": "line", "bound": 2, "whole": True})
         for tri in (["T1", "T2", "T3"],):
             plans.append({"threads": tri, "gran": "call", "bound": 2, "whole": False})
     r.rule = ("(a) 5 frameworks x 2 layouts in a fresh worker thread; (b) all schedules with <= bound preemptions for each plan (thread tuple, "
@@ -207,7 +222,7 @@ def run(tier, seed):
     for case, res in core.pmap(execute, anyt, chunksize=1):
         r.add(case, res)
     # (b) iterative preemption bounding
-    budget = 200 if tier == "quick" else 1500
+    budget = 400 if tier == "quick" else 2400
     import time
     t0 = time.time()
     completed = {}
